@@ -2,7 +2,7 @@ SPECIFICATION Spec
 CONSTANTS
   N = 5
   Quotas = {1}
-  Pools = {1, 2}
+  Pools = {2}
   Counters = {0}
 INVARIANTS OneBranch NeverBeyondQuota QuotaExact ChampionCopy AtMostOneClone SuperFirst SuperExactLast ParentsOK SelfMatingMutated ClassesRespected
 CHECK_DEADLOCK TRUE
